@@ -308,6 +308,8 @@ pub fn model_case(x: Excl) -> impl Strategy<Value = (ModelCase, Vec<&'static str
         let (attachments, events, lights, cameras, ribbons, particles, tex_anims, color_anims, transp_anims, embedded_skins, mask, keymode) = c;
         let mut spec = ModelSpec {
             ver,
+            // one model in eight carries an intermediate build number of its version
+            hdr_version: if hdr_seed % 8 == 0 { match ver { Ver::Vanilla => Some(257 + (hdr_seed / 8) % 3), Ver::TBC => Some(261 + (hdr_seed / 8) % 3), Ver::WotLK => Some(265 + (hdr_seed / 8) % 7), _ => None } } else { None },
             name,
             flags,
             hdr_seed,
@@ -532,6 +534,7 @@ pub fn full_spec(ver: Ver, n: usize, with_keys: bool, filenames: bool) -> ModelS
     };
     let mut s = ModelSpec {
         ver,
+        hdr_version: None,
         name: Some("Grid\\Model.m2".to_string()),
         flags: 0,
         hdr_seed: sd(0, 0),
